@@ -214,6 +214,10 @@ func flattenLineRaw(p []byte) (string, []string) {
 				}
 				_, err := dec.Token() // closing brace
 				must(err)
+				if strings.HasPrefix(key, "n") && dec.More() {
+					// a namespace stays open to the end of the line: members AFTER its closing brace mean it was closed early
+					out = append(out, "}")
+				}
 				continue
 			}
 			switch {
@@ -233,6 +237,11 @@ func flattenLineRaw(p []byte) (string, []string) {
 	obj(true)
 	return name, out
 }
+
+// fixedStringer: a Stringer with a constant text (see world.field, kind 3).
+type fixedStringer string
+
+func (s fixedStringer) String() string { return string(s) }
 
 // describeFields renders zap fields as an observer holds them (references are not resolved).
 func describeFields(fs []zapcore.Field) []string {
@@ -257,6 +266,12 @@ func describeFields(fs []zapcore.Field) []string {
 			out = append(out, fmt.Sprintf("%s=%d", f.Key, f.Integer))
 		case zapcore.StringType:
 			out = append(out, f.Key+"="+strings.Replace(f.String, c07Pad, "", 1))
+		case zapcore.StringerType:
+			if fs, ok := f.Interface.(fixedStringer); ok {
+				out = append(out, f.Key+"="+string(fs))
+				continue
+			}
+			out = append(out, f.Key+"?stringer")
 		default:
 			out = append(out, fmt.Sprintf("%s?%d", f.Key, f.Type))
 		}
@@ -330,6 +345,11 @@ func (w *world) field(f fldJ) zapcore.Field {
 		// is stripped again wherever a value is described (c07Pad), so model and oracle see "v<val>".
 		if f.Val >= 1000 {
 			return zap.String("s"+strconv.Itoa(f.Key), "v"+strconv.Itoa(f.Val)+c07Pad)
+		}
+		if f.Val%2 == 1 {
+			// every other short string travels as a zap.Stringer: the same text at the encoder, but a field the cores must
+			// leave as it is in the caller's slice (C07:caller-slice-modified) — String() is called again on every use
+			return zap.Stringer("s"+strconv.Itoa(f.Key), fixedStringer("v"+strconv.Itoa(f.Val)))
 		}
 		return zap.String("s"+strconv.Itoa(f.Key), "v"+strconv.Itoa(f.Val))
 	}
